@@ -56,4 +56,16 @@ example : ipToSockaddr [("lo", 1), ("eth0", 4)] ([0xfe, 0x80] ++ List.replicate 
     = some (.inet6 80 4 ([0xfe, 0x80] ++ List.replicate 13 0 ++ [1])) := by decide
 example : itod 77777 = "77777" := by decide
 
+/-- Unix-domain addresses: the three Unix networks round-trip with the name unchanged; any other network yields nil
+    (never a wrong address) -/
+theorem unix_roundtrip (network name : String) (h : network ∈ unixNetworks) :
+    (unixAddrToSockaddr network name).bind sockaddrToUnixName = some name := by
+  simp [unixAddrToSockaddr, h, sockaddrToUnixName]
+
+theorem unix_unsupported_nil (network name : String) (h : network ∉ unixNetworks) :
+    unixAddrToSockaddr network name = none := by
+  simp [unixAddrToSockaddr, h]
+
+example : unixAddrToSockaddr "unixgram" "/tmp/a.sock" = some (.unix "/tmp/a.sock") ∧ unixAddrToSockaddr "" "x" = none := by decide
+
 end Gnet.Props.C17
